@@ -6,7 +6,7 @@ pattern fails the proof build (fail closed)."""
 import re
 import sys
 
-from gen_tables import emit, zstr
+from gen_tables import emit, zlist, zstr
 
 NAMES = [
     ("pat_find_word", "_FIND_WORD_RE"),
@@ -34,4 +34,43 @@ def t_C02_Patterns():
     return emit("C02_Patterns", body)
 
 
-TABLES = {"C02_Patterns": t_C02_Patterns}
+# Cased characters the C02 harness uses in ignore_case queries: all ASCII letters, letters whose
+# str.casefold() changes length (sharp s, dotted capital I, fi ligature, j-caron, iota with dialytika
+# and tonos) and other non-ASCII letters with regular or irregular simple folding.
+FOLD_EXTRA = "\u00e9\u00c9\u00df\u1e9e\u017f\u212a\u0131\u0130\u03c3\u03c2\u03a3\u00b5\u03bc\ufb01\ufb02\u01f0\u0390\u00fc\u00dc"
+FOLD_UNCASED = ".,_-()[] \n\t0\u754c\U0001F600"
+
+
+def fold_alphabet():
+    return [chr(c) for c in range(65, 91)] + [chr(c) for c in range(97, 123)] + list(FOLD_EXTRA)
+
+
+def t_C02_CaseFold():
+    """the per-character relation of re.IGNORECASE between an escaped literal pattern character and a
+    text character, over fold_alphabet(); fail closed on its shape."""
+    al = fold_alphabet()
+    pairs = []
+    for p_ in al:
+        for t_ in al:
+            m = re.fullmatch(re.escape(p_), t_, re.IGNORECASE) is not None
+            if p_ == t_ and not m:
+                sys.stderr.write("gen_t_c02: IGNORECASE not reflexive on %r\n" % p_)
+                sys.exit(2)
+            if p_ != t_ and m:
+                pairs.append((ord(p_), ord(t_)))
+    for u in FOLD_UNCASED:
+        for t_ in al + list(FOLD_UNCASED):
+            if (re.fullmatch(re.escape(u), t_, re.IGNORECASE) is not None) != (u == t_) or \
+               (re.fullmatch(re.escape(t_), u, re.IGNORECASE) is not None) != (u == t_):
+                sys.stderr.write("gen_t_c02: uncased %r and %r match under IGNORECASE\n" % (u, t_))
+                sys.exit(2)
+    if not (52 <= len(pairs) <= 300) or (97, 65) not in pairs or (65, 97) not in pairs:
+        sys.stderr.write("gen_t_c02: unexpected fold table size %d\n" % len(pairs))
+        sys.exit(2)
+    body = "(* pairs (pattern char, text char), distinct, that match under re.IGNORECASE *)\n"
+    body += "Definition c02_fold_pairs : list (Z * Z) :=\n  [%s].\n\n" % "; ".join("(%d, %d)" % q for q in pairs)
+    body += "Definition c02_fold_alphabet : list Z :=\n  %s.\n" % zlist(ord(c) for c in al)
+    return emit("C02_CaseFold", body)
+
+
+TABLES = {"C02_Patterns": t_C02_Patterns, "C02_CaseFold": t_C02_CaseFold}
